@@ -30,6 +30,13 @@ def port_struct(case):
             return True
     return False
 
+def ladder_program(k):
+    """k strands, each sharing a domain with the next (a staple / tile-chain topology): s_i = d_i d_{i+1}*"""
+    body = [["seq", "d%d" % i, [["nuc", [[4, "N"]]]], None] for i in range(k + 1)]
+    body += [["strand", False, "s%d" % i, [["ref", "d%d" % i, False], ["ref", "d%d" % (i + 1), True]], None] for i in range(k)]
+    body.append(["struct", 1, "X0", ["s0"], False, ["ext", [[8, "."]]]])
+    return {"decl": ["prog", [], []], "body": body}
+
 def run(tier, seed, build):
     rng = random.Random(seed * 283 + 16)
     n = 14 if tier == "quick" else 150
@@ -40,7 +47,11 @@ def run(tier, seed, build):
     forced_port_struct = False
     try:
         for ti in range(n):
-            if rng.random() < 0.5:
+            ladder = (ti == 1)
+            if ladder:      # once per run: a large component whose strands form a long chain through shared domains
+                prog = ladder_program(400 if tier == "quick" else 1500)
+                target = {"files": {"prog.comp": pepper.comp_text(random.Random(ti), prog)}, "includes": [], "base": "prog", "args": [], "_prog": prog}
+            elif rng.random() < 0.5:
                 prog = pepper.sat_component(rng, name="prog", allow_zero=rng.random() < 0.4)
                 if rng.random() < 0.6:
                     # a dummy strand marked [dummy]
@@ -80,10 +91,13 @@ def run(tier, seed, build):
             dist["round_trips"] += 1
             rep = {"files": target["files"], "fixed": open(os.path.join(root, "fix.fixed")).read() if fixed else None, "earlier_compiles": nearlier,
                    "reproduce": "compile in one interpreter (after the earlier compiles), load out.save in a fresh one (harness/hist_worker.py), compare dump_graph of both"}
+            if ladder: rep["files"] = {"prog.comp": "(props.c16.ladder_program(%d): sequences d0..dK of 4 nt, strands s_i = d_i d_{i+1}*)" % (400 if tier == "quick" else 1500)}
             if res is None:
                 failures.append({"kind": "disagreement", "key": "worker", "summary": "history worker failed: " + err, "replay": rep}); continue
             r1 = res[-1]
             if r1.get("outcome") != "ok" or "memory_dump" not in r1:
+                if ladder:
+                    failures.append({"kind": "predicate", "key": "save-fails", "summary": "a valid component of many chained strands cannot be compiled and saved: %s" % str(r1.get("error", r1))[:300], "replay": rep})
                 continue
             # a design for this program, produced from the .pil (in this harness process)
             import implrun
